@@ -83,7 +83,7 @@ async def check_request(ctx, s, engine, req, sdl, gp):
     try:
         json.dumps(resp, allow_nan=False)
     except Exception as e:  # noqa
-        ctx.violation("not-json-serialisable", repr(e)[:300], case)
+        ctx.violation("not-json-serialisable", repr(e)[:300], case, exc=False)
         return
     try:
         conf = garbage.Conformance(s, refexec.RefExec, w, req.doc, req.op, coerced)
